@@ -179,6 +179,9 @@ pub fn run(c: &C03Case) -> Outcome {
 	if c.shallow && origin.components().count() == 2 {
 		o.label("origin-directly-below-the-root");
 	}
+	if c.files.len() > 20 {
+		o.label("more-than-20-ignore-files");
+	}
 	let build_new = |files: &[IgnoreFile]| rt.block_on(IgnoreFilter::new(&origin, files));
 	let f0 = match build_new(&b.files) {
 		Ok(f) => f,
@@ -403,10 +406,12 @@ fn strategy() -> BoxedStrategy<C03Case> {
 	patgen::alpha()
 		.prop_flat_map(|al| {
 			let dir = proptest::collection::vec(al.dir(), 0..3);
-			let file = (dir, proptest::bool::weighted(0.12), proptest::collection::vec(al.pattern(0.3), 1..5), prop_oneof![5 => Just(0u8), 1 => Just(1u8), 1 => Just(2u8), 1 => Just(3u8)]).prop_map(|(dir, global, lines, spelling)| IgFile { dir, global, lines, spelling });
+			let file = (dir, proptest::bool::weighted(0.12), proptest::collection::vec(al.pattern(0.3), 1..5), prop_oneof![5 => Just(0u8), 1 => Just(1u8), 1 => Just(2u8), 1 => Just(3u8)]).prop_map(|(dir, global, lines, spelling)| IgFile { dir, global, lines, spelling }).boxed();
 			let probe = (al.rel_path(4), any::<bool>(), proptest::bool::weighted(0.15)).prop_map(|(comps, is_dir, outside)| Probe { comps, is_dir, outside });
 			(
-				proptest::collection::vec(file, 1..6),
+				// a tenth of the cases: 21-40 ignore files in one construction (several per directory; sorting or
+				// batching code paths behave differently above small-size thresholds)
+				prop_oneof![9 => proptest::collection::vec(file.clone(), 1..6), 1 => proptest::collection::vec(file, 21..41)],
 				proptest::collection::vec(probe, 6..24),
 				proptest::collection::vec((any::<u16>(), any::<u16>()), 0..4),
 				any::<u16>(),
@@ -428,7 +433,7 @@ pub fn check(e: &Engine) {
 		"scoping",
 		LegOpts::det(
 			e.tier.pick(4_000, 80_000),
-			"in a sixth of the cases the origin is /tmp itself (a directory directly below the filesystem root; the tree is then virtual and the ignore files are stored elsewhere); 1-5 ignore files (whose applies_in directory is spelled plainly, with a '.' component, with a 'name/..' detour or with a trailing separator; origin, nested dirs drawn from a 3-name alphabet that half of the time contains the pair test/tests, global) of 1-4 lines from the grammar with 30% negations; 6-23 probes (files and dirs, 15% outside the origin: half of those in a sibling of the origin whose name has the origin's name as a string prefix, half far away); independent nearest-first evaluator (+ git top-down evaluator to delimit the agreed region) and four metamorphic relations; non-trivial = a probe in a prefix-sibling directory of an ignore file's directory, >=2 files on a probe's chain, or a matching negation",
+			"in a sixth of the cases the origin is /tmp itself (a directory directly below the filesystem root; the tree is then virtual and the ignore files are stored elsewhere); 1-5 ignore files, in a tenth of the cases 21-40 (whose applies_in directory is spelled plainly, with a '.' component, with a 'name/..' detour or with a trailing separator; origin, nested dirs drawn from a 3-name alphabet that half of the time contains the pair test/tests, global) of 1-4 lines from the grammar with 30% negations; 6-23 probes (files and dirs, 15% outside the origin: half of those in a sibling of the origin whose name has the origin's name as a string prefix, half far away); independent nearest-first evaluator (+ git top-down evaluator to delimit the agreed region) and four metamorphic relations; non-trivial = a probe in a prefix-sibling directory of an ignore file's directory, >=2 files on a probe's chain, or a matching negation",
 		),
 		&strategy,
 		&run,
